@@ -13,7 +13,8 @@ import json
 from os import access, R_OK, remove
 from os.path import isfile, exists
 from shutil import copy2
-from typing import List, Tuple
+from io import StringIO
+from typing import Any, List, Tuple
 
 from ruamel.yaml import YAML
 
@@ -446,6 +447,23 @@ def merge_across(
 
     return return_state
 
+def copy_document(log: ConsolePrinter, data: Any) -> Any:
+    """
+    Copy a document by way of its YAML text.
+
+    A deepcopy() of ruamel.yaml data is lossy:  dates become date-times,
+    Anchors and YAML Merge Keys are dissolved into plain copies.
+    """
+    yaml_editor = Parsers.get_yaml_editor()
+    buffer = StringIO()
+    try:
+        yaml_editor.dump(data, buffer)
+        (data_copy, copy_loaded) = Parsers.get_yaml_data(
+            yaml_editor, log, buffer.getvalue(), literal=True)
+    except Exception:   # pylint: disable=broad-except
+        copy_loaded = False
+    return data_copy if copy_loaded else deepcopy(data)
+
 def merge_matrix(
     log: ConsolePrinter, lhs_docs: List[Merger], rhs_docs: List[Merger]
 ) -> int:
@@ -458,7 +476,7 @@ def merge_matrix(
                 # merging inserts RHS nodes by reference, so sharing one RHS
                 # among several LHS documents would let each merge alter the
                 # results of the others.
-                lhs_doc.merge_with(deepcopy(rhs_doc.data))
+                lhs_doc.merge_with(copy_document(log, rhs_doc.data))
             except MergeException as mex:
                 log.error(mex)
                 return_state = 41
